@@ -13,7 +13,12 @@ oracle:         load(save(d)) compared with d section by section (body, common s
                 in the saved meta.xml; the second-generation package against the first, both read with zipfile + expat.
 inputs:         schema-directed random documents of every document class built through the element factories
                 (odf.grammar tables for children / attributes / text, attribute values drawn from the schema datatype
-                of the attribute and kept only if the bound converter returns them unchanged)
+                of the attribute and kept only if the bound converter returns them unchanged);
+                nests of 3-5 objects inside each other, each sub-document attached when complete (inside out), as an
+                empty shell (outside in) or as a LOADED document that already has its nested objects (Gen.nest);
+                documents built after a HISTORY of the process: packages with foreign members loaded and saved 1-3
+                times before (Gen.history / play_history); built and loaded documents saved 2-3 times (rec['resave']);
+                the first package holds the members of the built document and nothing else (members_of_the_document)
 """
 import io, os, re, sys, json, importlib, contextlib, warnings, tempfile, shutil
 import common
@@ -403,6 +408,54 @@ class Gen(object):
         return rec
 
 
+    def nest(self, levels, cls=None):
+        """a document with a chain of `levels` objects inside each other (Object 1/Object 1/.../), siblings beside some
+        links of the chain, each sub-document attached 'last' (inside out), 'first' (outside in) or 'loaded'"""
+        r = self.rng
+        def small(c=None):
+            d = self.document(2, c or r.choice(['Spreadsheet', 'Chart', 'Drawing', 'Text']))
+            if r.random() < 0.7:
+                d['pictures'] = []
+            return d
+        inner = small()
+        inner['attach'] = r.choice(['last', 'last', 'first', 'loaded'])
+        for l in range(levels - 1):
+            outer = small()
+            outer['attach'] = r.choice(['last', 'last', 'first', 'loaded'])
+            sibs = [small() for _ in range(r.choice([0, 0, 1]))]
+            for x in sibs:
+                x['attach'] = r.choice(['last', 'first'])
+            outer['objects'] = (sibs + [inner]) if r.random() < 0.5 else ([inner] + sibs)
+            inner = outer
+        top = self.document(2, cls)
+        top['objects'] = [inner] + [small() for _ in range(r.choice([0, 0, 1]))]
+        return top
+
+    def history(self):
+        """what the process did BEFORE the document under test is built: 1-2 documents with embedded objects are built
+        and saved, a foreign producer (the harness: zipfile) adds members of its own to the package - files the library
+        keeps as they are -, the package is loaded and saved 1-3 times"""
+        r = self.rng
+        steps = []
+        for _ in range(r.choice([1, 1, 2])):
+            a = self.document(2, r.choice(DOC_CLASSES))
+            a['objects'] = [self.document(2, r.choice(['Spreadsheet', 'Chart', 'Text'])) for _ in range(r.choice([1, 2]))]
+            if r.random() < 0.4:
+                a['objects'][0]['objects'] = [self.document(2, 'Chart')]
+            blob = lambda: enc_bytes(bytes(bytearray(r.randrange(256) for _ in range(r.randint(1, 30)))))
+            extras = [[u'meta.xml', u'text/xml', enc_bytes(FOREIGN_META)], [u'Configurations2/', u'application/vnd.sun.xml.ui.configuration', None],
+                      [u'Configurations2/accelerator/current.xml', u'', '-'], [u'layout-cache', u'application/binary', blob()],
+                      [u'Thumbnails/thumbnail.png', u'image/png', blob()], [u'own é.bin', u'application/octet-stream', blob()]]
+            steps.append({'doc': a, 'extras': [extras[0]] + [x for x in extras[1:] if r.random() < 0.6], 'saves': r.choice([1, 2, 3])})
+        return steps
+
+
+FOREIGN_META = (b'<?xml version="1.0" encoding="UTF-8"?>\n<office:document-meta xmlns:office="urn:oasis:names:tc:opendocument:xmlns:office:1.0" '
+                b'xmlns:meta="urn:oasis:names:tc:opendocument:xmlns:meta:1.0" xmlns:dc="http://purl.org/dc/elements/1.1/" office:version="1.2">'
+                b'<office:meta><meta:generator>Other/9.9</meta:generator><dc:title>title of an object of ANOTHER document</dc:title>'
+                b'<dc:creator>somebody else</dc:creator></office:meta></office:document-meta>')
+
+
 def enc_bytes(b):
     return '-' if not b else '.'.join('%x' % c for c in bytearray(b))
 
@@ -438,9 +491,16 @@ def realise_node(V, t, parent):
         realise_node(V, k, e)
 
 
-def realise(V, rec, tmpdir):
+def realise(V, rec, tmpdir, parent=None):
+    """rec['attach'] says WHEN a sub-document is attached to its parent: None/'last' = when it is complete, its own objects
+    included (a nest is assembled from the inside out); 'first' = as an empty shell, before it gets content and objects
+    (from the outside in); 'loaded' = it is completed, saved, loaded back and the LOADED document (which already has its
+    nested objects) is attached"""
     from odf import opendocument
     d = getattr(opendocument, 'OpenDocument' + rec['class'])()
+    attach = rec.get('attach') or 'last'
+    if parent is not None and attach == 'first':
+        parent.addObject(d)
     top = d.body.firstChild
     for sec, key in ((d.styles, 'styles'), (d.automaticstyles, 'auto'), (top, 'body'), (d.masterstyles, 'master'),
                      (d.fontfacedecls, 'fonts'), (d.settings, 'settings'), (d.meta, 'meta'), (d.scripts, 'scripts')):
@@ -464,7 +524,11 @@ def realise(V, rec, tmpdir):
         d.addThumbnail(dec_bytes(rec['thumbnail']))
     realise_extreme(V, rec.get('extreme'), d, top)
     for o in rec['objects']:
-        d.addObject(realise(V, o, tmpdir))
+        realise(V, o, tmpdir, d)
+    if parent is not None and attach != 'first':
+        if attach == 'loaded':
+            d = load_bytes(save_bytes(d))[0]
+        parent.addObject(d)
     return d
 
 
@@ -610,6 +674,9 @@ def classify(d, ctx):
             d['a'] is not None and d['b'] is not None and d['b'].lstrip(u'M') == d['a'].lstrip(u'M'):
         return 'style-name-collision'
     return None
+
+
+tree_eq = L.tree_eq      # a == b without C-level recursion (deep documents); deep_eq below is the same thing, kept for its callers
 
 
 def deep_eq(a, b):
@@ -901,14 +968,77 @@ def correspond_save(chk, drv, s1, p1, case, folder=u''):
             chk.corr_diff(case, X.first_diff(a, b), 'model differs', 'tree of the saved %s%s (real vs model contentTree/stylesTree/metaTree/settingsTree)' % (folder, name))
 
 
+def play_history(V, steps, tmpdir):
+    """the earlier life of the process (Gen.history): build + save, the harness adds foreign members below every folder of
+    the package (zipfile + its own manifest writer), load, save n times.  Nothing is checked here: C05 is about these
+    packages; C04 is about the document that comes NEXT."""
+    for st in steps:
+        raw = save_bytes(realise(V, st['doc'], tmpdir))
+        pk = L.read_pkg(raw)
+        man = list(pk.manifest)
+        mem = [(n, pk.data[n]) for n in pk.names if n not in ('mimetype', 'META-INF/manifest.xml')]
+        have = set(p for p, _ in man)
+        folders = [u''] + [p for p, _ in man if p and p != u'/' and p.endswith(u'/') and (p + u'content.xml') in have]
+        for f in folders:
+            for name, mt, data in st['extras']:
+                if (f == u'' and name in (u'meta.xml', u'Thumbnails/thumbnail.png')) or (f + name) in have:
+                    continue
+                man.append((f + name, mt)); have.add(f + name)
+                if data is not None:
+                    mem.append((f + name, dec_bytes(data)))
+        d, _ = load_bytes(L.write_pkg(pk.mimetype.decode('utf-8'), man, mem))
+        for _ in range(st['saves']):
+            save_bytes(d)
+
+
+def members_of_the_document(rep, s1, p1):
+    """the package saved from a BUILT document holds that document and nothing else: besides mimetype and manifest, every
+    member is - below a chain of object folders no longer than the document's nest - a part (content / styles / settings;
+    meta.xml for the top document), a picture of one of its (sub-)documents or a preview image; every manifest entry is
+    such a member or a folder above one; no name is stored or listed twice.  (Names only: what the members hold is
+    compared by compare_docs.)"""
+    def walk(s, depth, acc):
+        acc['depth'] = max(acc['depth'], depth)
+        acc['pics'] |= set(s['pictures'])
+        for o in s['objects']:
+            walk(o, depth + 1, acc)
+        return acc
+    acc = walk(s1, 0, {'depth': 0, 'pics': set()})
+    def accounted(n):
+        if n in (u'mimetype', u'META-INF/manifest.xml', u'meta.xml'):
+            return True
+        comps = n.split(u'/')
+        k = 0
+        while k < len(comps) - 1 and re.match(u'^Object [0-9]+$', comps[k]):
+            k += 1
+        rest = u'/'.join(comps[k:])
+        if k > acc['depth']:
+            return False
+        return rest in (u'content.xml', u'styles.xml', u'settings.xml', u'Thumbnails/thumbnail.png') or rest in acc['pics']
+    ok = set(n for n in p1.names if accounted(n))
+    for n in sorted(set(p1.names)):
+        if n not in ok and not (n.endswith(u'/') and any(x.startswith(n) for x in ok)):
+            rep.add('member-not-of-the-document', 'the saved package stores %r, which is no part, picture or preview of the document that was built' % n)
+        if p1.names.count(n) > 1:
+            rep.add('first-package-duplicate-member', 'the saved package stores %r %d times' % (n, p1.names.count(n)))
+    for p in sorted(set(p for p, _ in p1.manifest if p)):
+        if p != u'/' and p not in ok and not (p.endswith(u'/') and any(x.startswith(p) for x in ok)):
+            rep.add('member-not-of-the-document', 'the saved manifest lists %r, which is no part, picture or preview of the document that was built' % p)
+        if len(p1.mdict[p]) > 1:
+            rep.add('first-package-duplicate-member', 'the saved manifest lists %r %d times' % (p, len(p1.mdict[p])))
+
+
 def run_recipe(V, rec, tmpdir):
     """-> (report, pkg1 bytes, loaded doc, snapshot before)"""
     rep = Rep()
+    if rec.get('history'):
+        play_history(V, [json.loads(json.dumps(st)) for st in rec['history']], tmpdir)
     d = realise(V, rec, tmpdir)
     s1 = snapshot(d)
     raw1 = save_bytes(d)
     p1 = L.read_pkg(raw1)
     generator_check(rep, p1)
+    members_of_the_document(rep, s1, p1)
     d2, printed = load_bytes(raw1)
     if printed.strip():
         rep.add('load-prints', printed[:200])
@@ -922,6 +1052,14 @@ def run_recipe(V, rec, tmpdir):
     compare_docs(rep, s1, s2, p1, u'')
     raw2 = save_bytes(d2)
     compare_generations(rep, p1, L.read_pkg(raw2), s1)
+    # saving is repeatable: the k-th save of the built document and of the loaded document are again packages equal to
+    # the first at the infoset level
+    for k in range(rec.get('resave') or 0):
+        for what, doc in (('built', d), ('loaded', d2)):
+            sub = Rep()
+            compare_generations(sub, p1, L.read_pkg(save_bytes(doc)), s1)
+            for sig, det in sub.items:
+                rep.add(sig, 'save %d of the %s document: %s' % (k + 2, what, det))
     return rep, raw1, d2, s1
 
 
@@ -929,7 +1067,8 @@ def run(chk, replay=None):
     chk.rule = ('schema-directed random documents of the 7 document classes built through the element factories with grammar '
                 'checks ON (children/attributes/text from odf.grammar, values = schema datatype samples the bound converter '
                 'returns unchanged), with meta, settings, common/automatic/master styles, fonts, pictures (5 ways of adding), '
-                'thumbnail and embedded sub-documents (2 levels); non-trivial = at least 8 elements in the body')
+                'thumbnail and embedded sub-documents (2 levels; nests 3-5 deep assembled inside-out, outside-in and from loaded documents); some after a history '
+                '(packages with foreign members loaded and saved earlier in the process); built and loaded documents saved repeatedly; non-trivial = at least 8 elements in the body')
     # the deep documents (130-400 nested elements) need head room for the HARNESS' own recursive walkers (walk, norm,
     # diff, wire form: several frames per level); the library's own deepest recursion is the style-reference scan
     # (_stylerefs_of / _parseoneelement: 2 frames per level) and toXml (1 per level), i.e. with Python's default limit of
@@ -983,11 +1122,27 @@ def run(chk, replay=None):
                            'wide': chk.rng.randint(1500, 3000) if k == 8 else 0,
                            'long': chk.rng.randint(70000, 150000) if k in (8, 5) else 0}
                 chk.count('extreme:' + ('deep-' + extreme['kind'] if extreme['depth'] else 'wide+long'))
-            rec = G.document(cls=(('Drawing' if i == 9 else 'Text') if extreme else
-                                  DOC_CLASSES[i % len(DOC_CLASSES)] if i < 2 * len(DOC_CLASSES) else None),
-                             many_objects=chk.rng.randint(10, 12) if i % 100 == 3 else 0)
+            nest = 0
+            if not extreme and (i in (15, 16) or i % 100 == 25 or (chk.tier != 'quick' and i % 50 == 5)):
+                # objects nested 3-5 deep, attached inside-out / outside-in / as loaded documents
+                nest = chk.rng.choice([3, 3, 4, 5])
+                rec = G.nest(nest)
+                chk.count('nest:%d' % nest)
+            else:
+                rec = G.document(cls=(('Drawing' if i == 9 else 'Text') if extreme else
+                                      DOC_CLASSES[i % len(DOC_CLASSES)] if i < 2 * len(DOC_CLASSES) else None),
+                                 many_objects=chk.rng.randint(10, 12) if i % 100 == 3 else 0)
             if extreme:
                 rec['extreme'] = extreme
+            if not extreme and (i == 18 or i % 100 == 30 or (chk.tier != 'quick' and i % 50 == 10)):
+                # the process has a past: packages with foreign members were loaded and saved before this document is built
+                rec['history'] = G.history()
+                if not rec['objects']:
+                    rec['objects'] = [G.document(2, 'Spreadsheet')]
+                chk.count('with_history')
+            if rec.get('history') or nest or i % 25 == 2:
+                rec['resave'] = chk.rng.choice([1, 2])
+                chk.count('resaved')
             rec = json.loads(json.dumps(rec))
             try:
                 rep, raw1, d2, s1 = run_recipe(V, rec, tmpdir)
@@ -1000,8 +1155,14 @@ def run(chk, replay=None):
             key = {'doc': i, 'class': rec['class']}
             if not rec.get('extreme'):      # (xmlcorr's canon / has_discouraged recurse through builtins: not for 400 levels)
                 correspond_save(chk, drv, s1, p1, key)
-            for k, sub in enumerate(s1['objects']):
-                correspond_save(chk, drv, sub, p1, dict(key, object=k + 1), u'Object %d/' % (k + 1))
+            def corr_objects(s, folder):
+                # every sub-document of the nest, at every depth (folders by position, as compare_docs reads them)
+                for k, sub in enumerate(s['objects']):
+                    f = u'%sObject %d/' % (folder, k + 1)
+                    if (f + u'content.xml') in p1.data:
+                        correspond_save(chk, drv, sub, p1, dict(key, object=f), f)
+                        corr_objects(sub, f)
+            corr_objects(s1, u'')
             for folder, real in sorted(d2._loaded_sections.items()):
                 L.correspond_document(chk, drv, p1, folder, real, dict(key, folder=folder), rng=chk.rng if i % 2 else None)
             nel = len(list(L.elems(forest_el('b', s1['body']))))
